@@ -14,17 +14,22 @@ NOTE_COMMON = ("Trusted base: rustc's MIR of the scratch copy of the working tre
 
 CHECKS = {
     "C01": dict(
-        technique="abstract interpretation of MIR (per-bit provenance, intervals, may-depend sets) + grammar-to-helper table extraction; sibling comparison of the byte and word implementations as expression trees (dropped operand / single differing node)",
+        technique="abstract interpretation of MIR (per-bit provenance, intervals, affine closed forms modulo 2^w, predicate provenance of booleans, may-depend sets) + grammar-to-helper table extraction; sibling comparison of the byte and word implementations as expression trees (dropped operand / single differing node)",
         text="Decides structurally, for all operands at once: the flag write-set and definedness of ADD/ADC/SUB/SBB/CMP/INC/DEC/NEG (incl. CF "
              "preservation of INC/DEC), the machine frame (no other register/flag/memory byte), CMP writing no destination, the required "
              "input dependencies of result and of every flag (a missing dependency is a definite defect), byte/word table agreement, "
-             "that an immediate reaches the helper with every bit of the destination width, and abort freedom of the helpers and actions. Does NOT decide the numeric result or the flag formulas (value level).",
+             "that an immediate reaches the helper with every bit of the destination width, abort freedom of the helpers and actions, and - as closed forms over "
+             "the operands - the stored result (R11: affine form equal to the manual's value mod 2^w, per incoming carry) and CF, AF, OF, SF, ZF of ADD/ADC/SUB/SBB/CMP/"
+             "INC/DEC (R12: predicate normal forms D>0 / D==0 / xor compared with the manual's definition; a different form comes with a concrete operand "
+             "pair). Does NOT decide PF as a value, nor the flag values of NEG (set by hand-written branches).",
         design="DESIGN.md §6 C01"),
     "C02": dict(
-        technique="abstract interpretation of MIR (bit domain exact for logic ops and NOT, count specialisation 0 / 1 / >=1, interval abort analysis); sibling fingerprints of byte/word shift and rotate implementations",
+        technique="abstract interpretation of MIR (bit domain exact for logic ops and NOT and, with the count specialised, for every shift and rotate; trace partitioning on the input bits that decide CF/SF/OF; interval abort analysis); sibling fingerprints of byte/word shift and rotate implementations",
         text="Decides: AND/OR/XOR/TEST clear CF/OF exactly and assign SF/ZF/PF on every path; NOT is an exact complement and touches no flag; TEST "
              "stores nothing; count==0 changes neither operand nor flags; no count 0..255 aborts a helper; the `, cl` forms pass exactly CL; required dependencies; shl==sal; "
-             "flag frames for count>=1. Does NOT decide the shifted/rotated value or the CF/OF formulas for count>=1.",
+             "flag frames for count>=1; and exactly, for every count (0..34 and six larger in quick, all 256 in thorough) and every operand at once: the shifted/rotated "
+             "value as a permutation of operand bits, CF, SF and OF at count 1, compared with k applications of the manual's single-bit step (R12). "
+             "Does NOT decide ZF/PF as values (their dependencies are decided).",
         design="DESIGN.md §6 C02"),
 }
 
